@@ -38,7 +38,7 @@ TInit == Init /\ ex \in 1..NE /\ l = 1 /\ hw = 0
 TStep ==
   /\ l <= Len(Sched(ex))
   /\ Next
-  /\ last' = <<Sched(ex)[l].p, Sched(ex)[l].c>>
+  /\ last'[1] = Sched(ex)[l].p /\ last'[2] = Sched(ex)[l].c
   /\ l' = l + 1 /\ ex' = ex
   /\ hw' = l /\ (IF TLCGet(ex) < l THEN TLCSet(ex, l) ELSE TRUE)     \* longest matched prefix, for the drift report
 
@@ -48,7 +48,12 @@ TEnd ==
   /\ TLCSet(ex, 1000000)
   /\ l' = l + 1 /\ UNCHANGED <<vars, ex, hw>>
 
-TNext == TStep \/ TEnd
+\* a melt's return (the deferred removal from meltsInProgress) makes no storage call: it is not in the recorded sequence
+TSilent ==
+  /\ \E p \in Procs : pc[p] = "ret" /\ Melt(p)
+  /\ UNCHANGED <<ex, l, hw>>
+
+TNext == TStep \/ TSilent \/ TEnd
 TSpec == TInit /\ [][TNext]_tvars
 
 WriteResult ==
